@@ -2552,7 +2552,6 @@ class Parameters:
 
     def _update(self_, arg=Undefined, /, **kwargs):
         BATCH_WATCH = self_._BATCH_WATCH
-        self_._BATCH_WATCH = True
         self_or_cls = self_.self_or_cls
         if arg is not Undefined:
             kwargs = dict(arg, **kwargs)
@@ -2562,31 +2561,33 @@ class Parameters:
             if k in self_ and hasattr(self_[k], '_autotrigger_value')
         ]
 
+        self_._BATCH_WATCH = True
         for tp in trigger_params:
             self_[tp]._mode = 'set'
 
-        values = self_.values()
-        restore = {k: values[k] for k, v in kwargs.items() if k in values}
+        try:
+            values = self_.values()
+            restore = {k: values[k] for k, v in kwargs.items() if k in values}
 
-        for (k, v) in kwargs.items():
-            if k not in self_:
-                self_._BATCH_WATCH = False
-                raise ValueError(f"{k!r} is not a parameter of {self_.cls.__name__}")
-            try:
+            for (k, v) in kwargs.items():
+                if k not in self_:
+                    raise ValueError(f"{k!r} is not a parameter of {self_.cls.__name__}")
                 setattr(self_or_cls, k, v)
-            except Exception:
-                self_._BATCH_WATCH = False
-                raise
-
-        self_._BATCH_WATCH = BATCH_WATCH
-        if not BATCH_WATCH:
-            self_._batch_call_watchers()
-
-        for tp in trigger_params:
-            p = self_[tp]
-            p._mode = 'reset'
-            setattr(self_or_cls, tp, p._autotrigger_reset_value)
-            p._mode = 'set-reset'
+        finally:
+            # Whether or not a value was rejected, leave the batching
+            # state as we found it and announce what has been applied.
+            self_._BATCH_WATCH = BATCH_WATCH
+            try:
+                if not BATCH_WATCH:
+                    self_._batch_call_watchers()
+            finally:
+                for tp in trigger_params:
+                    p = self_[tp]
+                    p._mode = 'reset'
+                    try:
+                        setattr(self_or_cls, tp, p._autotrigger_reset_value)
+                    finally:
+                        p._mode = 'set-reset'
         return restore
 
     # PARAM3_DEPRECATION
@@ -2742,17 +2743,19 @@ class Parameters:
         triggers = {p:self_[p]._autotrigger_value
                     for p in trigger_params if p in param_names}
 
+        param_values = self_.values()
+        params = {name: param_values[name] for name in param_names}
         events = self_._events
         watchers = self_._state_watchers
         self_._events  = []
         self_._state_watchers = []
-        param_values = self_.values()
-        params = {name: param_values[name] for name in param_names}
         self_._TRIGGER = True
-        self_.update(dict(params, **triggers))
-        self_._TRIGGER = False
-        self_._events += events
-        self_._state_watchers += watchers
+        try:
+            self_.update(dict(params, **triggers))
+        finally:
+            self_._TRIGGER = False
+            self_._events += events
+            self_._state_watchers += watchers
 
     def _update_event_type(self_, watcher, event, triggered):
         """Return an updated Event object with the type field set appropriately."""
